@@ -117,6 +117,50 @@ def preempt_worker(item):
     return acc
 
 
+def timeout_grid_worker(item):
+    """the caller's time-out expires at every point of a transaction that is slowed down by a blocking driver (every party on
+    its own thread; the handler of the receive thread may be inside a send call at that moment): whatever the first call
+    returns or raises, the next reads - of another address, then of the first one - return exactly their own data"""
+    _k, sd, cmd, seed = item
+    acc = Acc()
+    for cost in (0.005, 0.02):
+        for i in range(1, 41):
+            tau = i * cost / 2.0 + 0.0013
+            first = c17.rd(0x1000, 4) if cmd == 'read' else c17.wr(0x1000, 4)
+            first.update(timeout=tau, gap=1.6)
+            ops = [first, c17.rd(0x2000, 4), c17.rd(0x1000, 4)]
+            sc = {'cfg': {'seed': sd, 'base_lat': 0.2e-3, 'send_cost': cost, 'send_visible': 0.0, 'rx_threads': True}, 'ops': ops,
+                  'part': 'time-out grid'}
+            d = DmWorld(sc['cfg'])
+            try:
+                d.run(ops)
+                probs = []
+                for k in (1, 2):
+                    if k >= len(d.results):
+                        probs.append("client call %d never returned" % (k + 1))
+                        break
+                    r = d.results[k]
+                    want = mem_bytes(ops[k]['address'], 4)
+                    if 'exc' in r:
+                        continue        # the server still holds the abandoned transaction (it has no time-out of its own) and
+                        #                 refuses: not among the failures the property lists - only wrong DATA is judged here
+                    if r.get('ret') != want:
+                        probs.append("after a call that timed out %.1f ms into its transaction the %s read returned %r instead of its own data"
+                                     % (tau * 1e3, 'next' if k == 1 else 'second next', r.get('ret')))
+                        break
+                probs += d.dead()
+                outcome = (tuple((f.src, f.can_id, f.data) for f in d.bus.log[:12]), repr(d.results[0].get('ret', d.results[0].get('exc')) if d.results else None))
+            finally:
+                d.close()
+            acc.case(repr(sc), nontrivial=True, outcome=outcome)
+            acc.add('transactions', 3)
+            if probs:
+                import re
+                acc.violation(re.sub(r'[0-9.]+ ms', 'N ms', probs[0].split(' returned ')[0]), sc, None, probs[:3])
+    acc.sample({'part': 'time-out grid', 'seed': sd, 'cmd': cmd})
+    return acc
+
+
 def scripted_one(sc, keep=False):
     """the real client against a scripted (foreign) DM14 server: its first answer is an error response - status 'busy' (1)
     or 'operation failed' (5), any first byte, an error code with an error indicator (EDCP 6 / 7) -; afterwards it serves a
@@ -225,6 +269,8 @@ def worker(item):
         return scripted_worker(item)
     if item[0] == 'preempt':
         return preempt_worker(item)
+    if item[0] == 'timeout_grid':
+        return timeout_grid_worker(item)
     chunk, seed = item
     acc = Acc()
     for sc in chunk:
@@ -337,6 +383,9 @@ def run(tier, seed):
                         for client in ('facade', 'query'):
                             scr.append({'cmd': cmd, 'status': status, 'b0': b0, 'error': error, 'edcp': edcp, 'client': client})
     items += [('scripted', scr[i::8], seed) for i in range(8)]
+    for sd in (None, 0xA55A):
+        for cmd in ('read', 'write'):
+            items.append(('timeout_grid', sd, cmd, seed))
     for (sd, v) in ((0xA55A, 'wrongkey'), (None, 'refuse_respond'), (0xA55A, 'refuse_respond'), (None, 'refuse_proceed')):
         for cmd in ('read', 'write'):
             kw = {'error': 0x101, 'edcp': 7} if v == 'refuse_respond' else {}
@@ -347,6 +396,21 @@ def run(tier, seed):
 
 
 def replay(rec):
+    if rec['scenario'].get('part') == 'time-out grid':
+        sc = rec['scenario']
+        d = DmWorld(sc['cfg'])
+        try:
+            d.run(sc['ops'])
+            print("\n".join(d.trace()))
+            bad = [k for k in (1, 2) if k >= len(d.results) or ('exc' not in d.results[k] and d.results[k].get('ret') != mem_bytes(sc['ops'][k]['address'], 4))]
+        finally:
+            d.close()
+        if bad:
+            print("REPRODUCED: read %d after the timed-out call did not return its own data" % (bad[0] + 1))
+            print("VIOLATION property=%s replay=(this file)" % PROP)
+            return 1
+        print("no violation on this tree")
+        return 0
     if rec['scenario'].get('part') == 'scripted server':
         probs, trace = scripted_one(rec['scenario'], keep=True)
         outcome = None
